@@ -265,8 +265,11 @@ func runC09(c *Ctx, i int, r *rand.Rand) {
 			k := k
 			add(&c09Fault{kind: "resp-cut", desc: fmt.Sprintf("backend declares Content-Length %d but returns after %d bytes", len(respBody), k), script: func(sc *BackendScript) { sc.DeclLen, sc.CutAt = true, k }, declLen: -1})
 		}
-		for _, delta := range []int{1, 100} {
+		for _, delta := range []int{1, 100, -1, -3, -len(respBody) / 2} {
 			delta := delta
+			if delta == 0 || len(respBody)+delta < 0 {
+				continue
+			}
 			add(&c09Fault{kind: "resp-content-length", desc: fmt.Sprintf("backend declares Content-Length %d for a %d-byte body", len(respBody)+delta, len(respBody)), script: func(sc *BackendScript) { sc.DeclLen, sc.LenDelta = true, delta }, declLen: -1})
 		}
 	}
